@@ -169,8 +169,9 @@ package engine
 //@ modifies ah.runRes, ah.toWait, chanClosed[ah.runRes]
 
 //@ func (p *instancePool) runAsync
-//@ props C05
+//@ props C05 C03 C12
 //@ ensures [handle] imp(result1 == nil, result0.poolCtx == runCtx0 && parent(result0.runCtx) == runCtx0 && parent(result0.instanceStartCtx) == result0.runCtx)
+//@ ensures [each-cancel-function-cancels-its-own-context] imp(result1 == nil, cancels(result0.runCancel) == result0.runCtx && cancels(result0.instanceStartCancel) == result0.instanceStartCtx)
 //@ ensures [three-tasks] imp(result1 == nil, ev(spawn) == old(ev(spawn)) + 3)
 //@ ensures [channels] imp(result1 == nil, result0.providerErr != nil && result0.aggregatorErr != nil && result0.startRes != nil && result0.runRes != nil && !closed(result0.runRes))
 //@ ensures [failure-starts-nothing] imp(result1 != nil, result0 == nil && ev(spawn) == old(ev(spawn)))
